@@ -83,10 +83,16 @@ func registerIntrinsics(x *Exec) {
 		return func(x *Exec, fr *frame, args []Value, _ *ssa.CallCommon) Value {
 			n := t(args[0])
 			sz := x.upperBound(n, "allocation size")
-			if zero {
-				return x.M.Mem.Alloc(sz, "AllocZ").Ptr()
+			huge := x.hugeNext
+			x.hugeNext = false
+			var a *core.Alloc
+			if zero || huge {
+				a = x.M.Mem.Alloc(sz, "AllocZ")
+			} else {
+				a = x.M.Mem.AllocSym(sz, "AllocU")
 			}
-			return x.M.Mem.AllocSym(sz, "AllocU").Ptr()
+			a.Huge = huge
+			return a.Ptr()
 		}
 	}
 	in[pRT+"AllocZ"] = alloc(true)
